@@ -44,6 +44,14 @@ CHECKS['C10'] = dict(
     text='Twin apps in lock-step (bare packet vs the same packet inside an NDNLPv2 envelope with a generated header subset incl. unknown critical/non-critical numbers) must produce equal effect logs (handler calls, completions, face output); Nack envelopes must complete exactly the pending Interests of that name with exactly the reason (0..2^64-1); fragmented envelopes must have no effect; replies to Interests with PIT tokens (length 0..40, answered out of order, some late) are decoded from the recorded face output with the independent codec.',
     design_ref='DESIGN.md 3/C10', technique='runtime differential monitor (twin executions) with boundary recorders and an independent LP decoder',
     note='headers generated in ascending type order before the fragment; PIT-token clause judged on the current front-end only.')
+CHECKS['C17'] = dict(
+    text='A scripted forwarder on the recording face decodes every command Interest with the independent codec in the format of the front-end in use (signed Interest: parameters digest, DigestSha256 over the signed portion, SignatureTime; legacy: 4 extra name components, digest over the name), records in-flight count and timestamps, and answers per script (status codes with/without body, Nack, silence, garbage, bad signature); return values and absence of exceptions are compared with the script; 1..12 concurrent calls at one clock reading, also under a jittering clock; route() over two connections; ControlResponse values through parse_response.',
+    design_ref='DESIGN.md 3/C17', technique='runtime protocol monitor (scripted peer + boundary recorder) on a virtual-time loop with clock-schedule injection',
+    note='a bad digest signature on a 200 reply is success in the current front-end (pass_all) and failure in the legacy one.')
+CHECKS['C19'] = dict(
+    text='A scripted producer answers or drops each Interest of the real segment_fetcher per a generated script; yielded sequence, final outcome and the number of Interests per segment are compared with a small model. Thorough: exhaustive over sizes <= 4 x discovery answer x single lossy request x retry limit x marker placement.',
+    design_ref='DESIGN.md 3/C19', technique='runtime monitor: scripted peer with loss/fault injection on a virtual-time loop, outcome compared with an executable model',
+    note='objects without any final-block marker are outside the statement.', level='fault_enumeration')
 _ALL = ['C%02d' % i for i in range(1, 21)]
 for _p in _ALL:
     if _p not in CHECKS:
